@@ -611,6 +611,9 @@ func SigOpCost(t *Tx, spent []Coin, p2sh, segwit bool) int {
 
 // ---------------------------------------------------------------- validation
 
+// IsFinal: may t be part of a block at height whose lock-time cutoff (median time past of its parent) is cutoff.
+func IsFinal(t *Tx, height uint32, cutoff uint32) bool { return isFinal(t, height, cutoff) }
+
 func isFinal(t *Tx, height uint32, cutoff uint32) bool {
 	if t.Lock == 0 {
 		return true
